@@ -1158,7 +1158,7 @@ def run(ctx):
     cases_adv, cases_neg = [], []
     targeted(ctx, st, cases_adv, cases_neg)
     rng = ctx.rng
-    for _ in range(350 * scale):
+    for _ in range((250 if scale == 1 else 350 * scale)):
         role = "Client" if rng.random() < 0.5 else "Server"
         run_single(ctx, st, role, gen_cfg(rng, role, st), None, "random", cases_adv, cases_neg,
                    check_adv=rng.random() < 0.3)
@@ -1187,7 +1187,7 @@ def run(ctx):
     seq_targeted(ctx, st, cases_adv, cases_neg)
     for _ in range(60 * scale):
         run_sequence(ctx, st, gen_seq_case(rng, st), cases_adv, cases_neg)
-    for _ in range(100 * scale):
+    for _ in range((70 if scale == 1 else 100 * scale)):
         run_pair(ctx, st, gen_cfg(rng, "Client", st), gen_cfg(rng, "Server", st), cases_adv, cases_neg)
     safe_flush(ctx, cases_adv, cases_neg)
     # real handshakes: the targeted group-exchange pair, then random disabled_algorithms on both sides
